@@ -55,21 +55,22 @@ def docStmtB (ts : List Token) (i : Nat) : Bool :=
 /-! ### the main guard -/
 
 /-- What CPython's parser guarantees about the top-level statements it reports, relative to a list of
-`n` lines preceded by `pos` other lines: each statement spans lines `a … b` (1-based, inclusive) within
-bounds, and the statements follow each other without overlap. -/
-def RangesOk : (pos n : Nat) → List (Nat × Nat) → Prop
+`n` lines preceded by `pos` other lines: each statement spans lines `lineno … endLineno` (1-based,
+inclusive) within bounds, and the statements follow each other without overlap. -/
+def RangesOk : (pos n : Nat) → List IfStmt → Prop
   | _, _, [] => True
-  | pos, n, (a, b) :: rest => pos < a ∧ a ≤ b ∧ b ≤ pos + n ∧ RangesOk b (n - (b - pos)) rest
+  | pos, n, r :: rest =>
+    pos < r.lineno ∧ r.lineno ≤ r.endLineno ∧ r.endLineno ≤ pos + n ∧ RangesOk r.endLineno (n - (r.endLineno - pos)) rest
 
 /-- What C13 asks of `suppress_main_guard`, read along the source: the lines before a top-level `if`
-are kept; its block is dropped when its first line is the `__main__` guard and kept otherwise; and so
-on with what follows the block. `pos` = number of lines already passed. -/
-def keepOutsideGuards : (pos : Nat) → List Line → List (Nat × Nat) → List Line
+are kept; its block is dropped when its test is the `__main__` guard and kept otherwise; and so on
+with what follows the block. `pos` = number of lines already passed. -/
+def keepOutsideGuards : (pos : Nat) → List Line → List IfStmt → List Line
   | _, ls, [] => ls
-  | pos, ls, (a, b) :: rest =>
-    let pre := ls.take (a - 1 - pos)
-    let blk := (ls.drop (a - 1 - pos)).take (b - (a - 1))
-    let post := ls.drop (b - pos)
-    pre ++ (if (blk.head?.map guardLine).getD false then [] else blk) ++ keepOutsideGuards b post rest
+  | pos, ls, r :: rest =>
+    let pre := ls.take (r.lineno - 1 - pos)
+    let blk := (ls.drop (r.lineno - 1 - pos)).take (r.endLineno - (r.lineno - 1))
+    let post := ls.drop (r.endLineno - pos)
+    pre ++ (if r.isGuard then [] else blk) ++ keepOutsideGuards r.endLineno post rest
 
 end Paroxy.Cleanup.Spec
